@@ -17,7 +17,7 @@ RULE = ("histories of add_edge / add_edges_from / remove_edge / update_vertex_nu
 ASSUMPTIONS = ["networkx is trusted for the to_networkx/from_networkx comparison",
                "a refused insertion is expected to raise an exception (any type) on the three mutable classes"]
 REQUIRED = ["ops_applied", "view_comparisons", "invariant_evaluations", "refusals_observed",
-            "networkx_round_trips", "removals_effective", "vertex_growths_effective", "dag_flag_flips", "old_view_rereads"]
+            "networkx_round_trips", "removals_effective", "vertex_growths_effective", "dag_flag_flips", "old_view_rereads", "networkx_views_along_history"]
 EXHAUSTIVE_SUBSPACES = {
     "quick": ["all histories of length <= 2 over the operation alphabet with vertex arguments 0..n+1 for n = 2,3 (Graph, DirectedGraph), (L,R) in {(2,2),(1,3)} (BipartiteGraph)"],
     "thorough": ["all histories of length <= 3 over the same alphabets"]}
@@ -313,6 +313,31 @@ def apply(ctx, G, S, op, where):
             ctx.violation("simple:update_vertex_number-accepts-invalid", "%s: update_vertex_number(%r) accepted" % (where, k))
 
 
+def nx_view(ctx, G, S, where):
+    """to_networkx() of the current state against the model (vertices and edges only)."""
+    kind = S.kind
+    ctx.count("networkx_views_along_history")
+    _Busy.depth += 1
+    try:
+        X = G.to_networkx()
+    finally:
+        _Busy.depth -= 1
+    if kind == "simple":
+        got = sorted((min(a, b), max(a, b)) for a, b in X.edges())
+        nodes_ok = sorted(X.nodes()) == list(range(1, S.n + 1))
+    elif kind == "digraph":
+        got = sorted(X.edges())
+        nodes_ok = sorted(X.nodes()) == list(range(1, S.n + 1))
+    else:
+        got = sorted((min(a, b), max(a, b) - S.L) for a, b in X.edges())
+        nodes_ok = X.number_of_nodes() == S.L + S.R
+    if got != S.edges() or not nodes_ok:
+        ctx.violation(kind + ":to_networkx-shows-an-earlier-state", "%s: to_networkx() has edges %r, the graph has %r"
+                      % (where, got[:12], S.edges()[:12]))
+        return False
+    return True
+
+
 def finish(ctx, G, S, where):
     """networkx round trip at the end of a history."""
     import networkx
@@ -374,6 +399,9 @@ def run_history(ctx, kind, start, ops):
             break
         if len(done) in (1, 3, 7):
             old_views.append((len(done), G.edges()))
+        if len(done) in (1, 2, 4, 6, 9, 14, 20):
+            # the networkx view is requested several times along a history, not only at its end
+            nx_view(ctx, G, S, w)
         stale = False
         for born, view in old_views:
             ctx.count("old_view_rereads")
